@@ -197,12 +197,14 @@ fn main() {
             std::process::exit(if bad == 0 { 0 } else { 2 });
         }
         "gen" => {
-            // gen <prop> <index>: print the generated trace (debugging aid)
+            // gen <prop> <index> [quick|thorough] [seed]: print the generated trace as JSON
+            quiet_panics();
             let prop = &args[2];
             let idx: u64 = args[3].parse().unwrap();
-            let seed = std::env::var("VERIF_SEED").ok().and_then(|s| s.parse::<u64>().ok()).unwrap_or(1);
-            let t = worlds::generate(prop, rng::run_seed(seed, prop, idx), idx, false);
-            println!("{}", serde_json::to_string_pretty(&t).unwrap());
+            let thorough = args.get(4).map_or(false, |s| s == "thorough");
+            let seed = args.get(5).and_then(|s| s.parse::<u64>().ok()).or_else(|| std::env::var("VERIF_SEED").ok().and_then(|s| s.parse::<u64>().ok())).unwrap_or(1);
+            let t = worlds::generate(prop, rng::run_seed(seed, prop, idx), idx, thorough);
+            println!("{}", serde_json::to_string(&t).unwrap());
         }
         _ => usage(),
     }
